@@ -7,6 +7,10 @@ TRANSPARENT = {"ExprWithCleanups", "MaterializeTemporaryExpr", "CXXBindTemporary
 LOG_CALLS = {"_xbt_log_event_log", "_xbt_log_cat_init"}
 ABORT_CALLS = {"xbt_abort", "abort"}
 DROP_CALLS = {"xbt_backtrace_display_current"}
+# wrappers W(closure, ...) whose meaning for the calling actor is "run the closure once, now, and return its result"
+# (simcall_answered: the kernel runs the closure in maestro context while the caller is blocked). The closure is lifted
+# into a C function and called in place; the assumption is reported in gen.json "dropped".
+SYNC_WRAPPERS = {"simcall_answered"}
 ARITH_CASTS = {"IntegralCast", "FloatingToIntegral", "IntegralToFloating", "FloatingCast", "IntegralToBoolean",
                "FloatingToBoolean", "PointerToBoolean", "BooleanToSignedIntegral", "PointerToIntegral",
                "IntegralToPointer"}
@@ -377,9 +381,10 @@ class Emitter:
         if ck == "BitCast":
             return "((%s)%s)" % (self.ctype(n), self.paren(self.E(inner)))
         if ck in ("DerivedToBase", "UncheckedDerivedToBase"):
-            a, b = self.try_ctype(n), self.try_ctype(inner)
-            if a is not None and a == b and a.startswith("struct vf_"):
-                return self.E(inner)  # implementation base of a modelled library class: same model type
+            sct, dct = self.try_ctype(inner), self.try_ctype(n)
+            if sct is not None and sct == dct and (not sct.startswith("struct ") or sct.endswith("*") or
+                                                   sct.startswith("struct vf_")):
+                return self.E(inner)  # library class and its base mapped to the same scalar / same model type
             return self.derived_to_base(n, inner)
         if ck == "BaseToDerived":
             return self.base_to_derived(n, inner)
@@ -394,6 +399,9 @@ class Emitter:
         path = self.cast_path(n, dtag)
         if not path:
             raise Unsupported("derived-to-base cast without path")
+        dct = self.try_ctype(n)
+        if len(path) == 1 and dct and dct.rstrip("*").startswith("struct vf_"):
+            path = [dct.rstrip("*")[len("struct "):]]  # class deriving from a modelled std container: base = the model
         e = self.paren(self.E(inner))
         cur = dtag
         acc = (e + "->") if is_ptr else (e + ".")
@@ -660,6 +668,9 @@ class Emitter:
             rd = c["referencedDecl"]
             name = rd["name"]
             fnt = (rd.get("type") or {}).get("qualType")
+            if name in self.cfg.get("sync_wrappers", SYNC_WRAPPERS) and args and \
+                    skip(args[0]).get("kind") == "LambdaExpr":
+                return self.call_lambda_now(skip(args[0]), n, name)
             r = self.lib.free_call(self, n, name, args, fnt) if self.lib else None
             if r is not None:
                 return r
@@ -792,6 +803,76 @@ class Emitter:
             return r
         raise Unsupported("lambda in this position")
 
+    def call_lambda_now(self, lam, call, wrapper):
+        """W(lambda) for a synchronous wrapper W: the closure body becomes the C function <unit>__lambda<k>; captures
+        become its parameters (this -> self, by-copy -> value, by-reference -> pointer); the call is emitted in place."""
+        rec = lam["inner"][0]
+        ops = [c for c in rec.get("inner", []) if c.get("kind") == "CXXMethodDecl" and c.get("name") == "operator()"]
+        fields = [c for c in rec.get("inner", []) if c.get("kind") == "FieldDecl"]
+        if len(ops) != 1:
+            raise Unsupported("generic lambda")
+        op = ops[0]
+        if any(c.get("kind") == "ParmVarDecl" for c in op.get("inner", [])):
+            raise Unsupported("lambda with parameters passed to %s" % wrapper)
+        body = [c for c in op.get("inner", []) if c.get("kind") == "CompoundStmt"]
+        caps = lam["inner"][1:1 + len(fields)]
+        if len(body) != 1 or len(caps) != len(fields):
+            raise Unsupported("lambda layout")
+        ret = self.ctype(call)
+        self.unit.lambdas = getattr(self.unit, "lambdas", 0) + 1
+        cname = "%s__lambda%d" % (self.unit.cname, self.unit.lambdas - 1)
+        params, ptypes, avs, binds = [], [], [], []
+        for f, cap in zip(fields, caps):
+            core = skip(cap)
+            ft = parse(qt(f))
+            if core.get("kind") == "CXXThisExpr":
+                tag = self.tm.class_tag_of(self.ptype(core))
+                params.append("struct %s* self" % tag)
+                ptypes.append("struct %s*" % tag)
+                avs.append("self")
+            elif core.get("kind") == "DeclRefExpr" and core["referencedDecl"].get("kind") in ("VarDecl", "ParmVarDecl"):
+                rd = core["referencedDecl"]
+                name = self.local_name(rd)
+                if "->" in name:
+                    raise Unsupported("capture of a structured binding")
+                if ft.kind in ("ref", "rref"):
+                    ct = self.tm.c(ft.to) + "*"
+                    avs.append(self.addr_of(core))
+                    binds.append((rd["id"], name, True))
+                else:
+                    ct = self.tm.c(ft)
+                    avs.append(self.E(cap))
+                    binds.append((rd["id"], name, False))
+                params.append("%s %s" % (ct, name))
+                ptypes.append(ct)
+            else:
+                raise Unsupported("lambda capture initialised by %s" % core.get("kind"))
+        saved = (self.unit, self.unit_ret, self.unit_ret_isref, self.locals, self.local_names, self.ref_ids,
+                 self.used_local_names, self.pre, self.cn, self.callflag)
+        unit = Unit(cname, op, self.unit.cls, "lambda")
+        self.begin_unit(unit, ret, False)
+        for did, name, isref in binds:
+            self.locals.add(did)
+            self.local_names[did] = name
+            self.used_local_names[name] = did
+            if isref:
+                self.ref_ids.add(did)
+        blines = self.s_CompoundStmt(body[0], "")
+        (self.unit, self.unit_ret, self.unit_ret_isref, self.locals, self.local_names, self.ref_ids,
+         self.used_local_names, self.pre, self.cn, self.callflag) = saved
+        text = ""
+        for k in range(unit.loops):
+            m = "VF_LOOP_%s_%d" % (cname, k)
+            text += "#ifndef %s\n#define %s\n#endif\n" % (m, m)
+        text += "/* ---- closure passed to %s in %s ---- */\n" % (wrapper, self.unit.cname)
+        text += "%s %s(%s)\n%s\n" % (ret, cname, ", ".join(params) if params else "void", "\n".join(blines))
+        self.lifted.append(text)
+        self.note_proto(cname, ret, ptypes, "closure run by %s" % wrapper)
+        self.unit_names.add(cname)
+        self.dropped.append("%s(closure) = closure run once in place" % wrapper)
+        self.callflag = True
+        return "%s(%s)" % (cname, ", ".join(avs))
+
     def e_CXXStdInitializerListExpr(self, n):
         return self.E(n["inner"][0])
 
@@ -812,6 +893,32 @@ class Emitter:
         m = getattr(self, "s_" + k, None)
         if m is not None:
             return m(n, ind)
+        core = n
+        while core.get("kind") in TRANSPARENT:
+            core = core["inner"][0]
+        if core.get("kind") == "CXXThrowExpr":  # `throw E(temporary);` is wrapped in ExprWithCleanups
+            return self.s_CXXThrowExpr(core, ind)
+        if core.get("kind") == "BinaryOperator" and core.get("opcode") == "=" and self.cfg.get("exceptions", True):
+            # `lhs = f(..);` where f may throw: in C++ the store does not happen when f throws. The value goes through
+            # a temporary and is stored only when no exception is in flight.
+            a, b = core["inner"]
+            rct = self.try_ctype(b)
+            if rct is not None and (not rct.startswith("struct ") or rct.endswith("*")) and rct != "void":
+                saved, self.pre = self.pre, []
+                flag0, self.callflag = self.callflag, False
+                rhs = self.E(b)
+                if self.callflag:
+                    lhs = self.E(a)
+                    pre, self.pre = self.pre, saved
+                    self.unit.tmp += 1
+                    tmp = "__v%d" % self.unit.tmp
+                    out = [ind + "{"] + [ind + "  " + p for p in pre]
+                    out.append("%s  %s %s = %s;" % (ind, rct, tmp, rhs))
+                    out += self.exc_check(n, ind + "  ")
+                    out.append("%s  %s = %s;" % (ind, self.paren(lhs), tmp))
+                    out.append(ind + "}")
+                    return out
+                self.pre, self.callflag = saved, flag0
         # expression statement
         saved = self.pre
         self.pre = []
